@@ -253,6 +253,168 @@ def match_pair(a, b):
         case _:
             return ("repoint", a, b)
 
+def chained(rows):
+    from itertools import chain
+    out = []
+    pairs = chain.from_iterable(zip(r, r[1:]) for r in rows if r)
+    for a, b in pairs:
+        out.append(a + b)
+    return out
+
+def partial_bind(k, b):
+    if k == 1:
+        rule = ("left", 3, 4)
+    elif k == 2:
+        rule = (b.left, 3, 4)
+    else:
+        rule = None
+    if rule is None:
+        return "none"
+    a, n, m = rule
+    return (getattr(b, a) if isinstance(a, str) else a, n, m)
+
+def field_then_change(b):
+    if b.left > 1:
+        d = b.left
+        b.left = 0
+        f = (lambda v: v + 1)
+    else:
+        d = b.right
+        b.right = 0
+        f = (lambda v: v - 1)
+    return f(d), d, b.left, b.right
+
+def nested_continue(x, y, log):
+    for kind, tag, n in TABLE:
+        if isinstance(x, kind):
+            if y:
+                continue
+        elif n == 3:
+            log.append("three")
+        log.append(tag)
+    return log
+
+def _bracketed(fn):
+    def wrapper(self, *args, **kwargs):
+        self.left += 10
+        result = fn(self, *args, **kwargs)
+        self.left -= 1
+        return result
+    return wrapper
+
+import contextlib
+
+class Brk:
+    def __init__(self):
+        self.left = 0
+        self.log = []
+
+    @_bracketed
+    def run(self, v):
+        if v is None:
+            return self.left
+        if v < 0:
+            raise ValueError("neg")
+        self.log.append(v)
+
+    @contextlib.contextmanager
+    def _flagged(self, tag):
+        self.log.append("in " + tag)
+        yield
+        self.log.append("out " + tag)
+
+    @contextlib.contextmanager
+    def _safely(self):
+        self.left += 1
+        try:
+            yield
+        finally:
+            self.left -= 1
+
+    def use(self, v):
+        with self._flagged("a"):
+            self.log.append(v)
+            if v is None:
+                raise KeyError("none")
+        with self._safely():
+            if v == 0:
+                raise KeyError("zero")
+        return self.left
+
+def use_brk(v):
+    b = Brk()
+    out = []
+    try:
+        out.append(b.run(v))
+    except ValueError as e:
+        out.append(str(e))
+    try:
+        out.append(b.use(v))
+    except KeyError as e:
+        out.append(("key", str(e)))
+    return out, b.left, b.log
+
+def eafp(v):
+    table = {1: [10], 2: [20]}
+    out = []
+    try:
+        got = table[v]
+    except KeyError:
+        out.append("missing")
+    else:
+        out.append(got)
+    try:
+        table[v].append(5)
+    except KeyError:
+        table[v] = [5]
+    def look(k):
+        try:
+            return table[k]
+        except KeyError:
+            pass
+        return None
+    def look2(k):
+        with contextlib.suppress(KeyError):
+            return table[k]
+        return "absent"
+    return out, sorted(table.items()), look(v), look(99), look2(v), look2(98)
+
+from operator import attrgetter as _ag
+_SCOPES = tuple(map(_ag, ("a", "a.b")))
+_FLAGS = dict(first=1, second=2)
+
+class _Rec:
+    def __init__(self, a):
+        self.a = a
+
+def quantified(x, y):
+    log = []
+    def ident(v):
+        log.append(v)
+        return v
+    p, q = _Rec(_Rec(x)), _Rec(_Rec(y))
+    p.a.b, q.a.b = x, 0
+    ok = all(ident(s(p)) == ident(s(q)) for s in _SCOPES) if x else None
+    some = any(v > x for k, v in _FLAGS.items() if k != "first")
+    try:
+        assert all(s(p) is not None for s in _SCOPES), "none"
+        res = "fine"
+    except AssertionError as e:
+        res = str(e)
+    return ok, some, res, len(log)
+
+from functools import partial
+
+def _emit(log, items, gate=False):
+    log.append(("gate" if gate else "plain", tuple(items)))
+
+def partial_rows(cats):
+    log = []
+    for key, fn in (("a", _emit), ("b", partial(_emit, gate=True)), ("c", _emit)):
+        if key in cats:
+            fn(log, cats[key])
+    return log
+
 def make(container):
     def call(v):
         container.append(v)
@@ -283,6 +445,14 @@ INPUTS = {
     "require_form": [(1,), (3,)],
     "all_map": [([1, 2],), ([0, 1],), ([],)],
     "use_factory": [(1,), (2,)],
+    "partial_rows": [({"a": [1], "b": [2]},), ({"c": [3]},), ({},)],
+    "quantified": [(1, 1), (0, 0), (3, 0), (2, 2)],
+    "eafp": [(1,), (3,)],
+    "use_brk": [(1,), (None,), (-1,), (0,)],
+    "nested_continue": [(1, True, []), (1, False, []), ("a", True, []), (None, False, [])],
+    "partial_bind": [(1, "BOX"), (2, "BOX"), (3, "BOX")],
+    "field_then_change": [("BOX",)],
+    "chained": [([[1, 2, 3], [], [4, 5]],), ([],)],
     "match_pair": [(None, None), (None, 1), (1, None), (2, 2), (1, 2)],
     "use_deco": [(1, 2), (None, 2)],
     "op_helpers": [("BOX", {"k": 1}), ("BOX", {})],
@@ -327,7 +497,7 @@ def main():
                 print("transform self-test: %s%r gives %r before and %r after the loader's rewrites" % (name, args, a, b))
     # the cases must actually exercise the rewrites
     expect_rewritten = {"search_break_carry", "continue_rows", "nested_rows", "break_no_carry", "reflect", "dict_items", "two_way", "two_way_stmt",
-                        "starred", "ifexp_iter", "bulk", "raise_form", "require_form", "all_map", "dispatch", "attr_dispatch", "prod", "walrus", "matcher", "matcher_expr", "op_helpers", "match_pair"}
+                        "starred", "ifexp_iter", "bulk", "raise_form", "require_form", "all_map", "dispatch", "attr_dispatch", "prod", "walrus", "matcher", "matcher_expr", "op_helpers", "match_pair", "chained"}
     for name in sorted(expect_rewritten):
         f0 = next(n for n in ast.walk(tree0) if isinstance(n, ast.FunctionDef) and n.name == name)
         f1 = next(n for n in ast.walk(ast.parse(src1)) if isinstance(n, ast.FunctionDef) and n.name == name)
